@@ -30,7 +30,7 @@ def AbsL (L : Layout) (s : State) : Prop := ∀ x, x ∈ s.absorbed → ∃ m, m
 
 theorem addPhase2_absorbed_sub {extra : List Key} (s : State) (k : Key) (m : Mapping) (h : IInv extra s) (x : Key)
     (hx : x ∈ (addPhase2 s k m).1.absorbed) : x ∈ s.absorbed := by
-  cases ha : isActionMapping m
+  cases ha : producesActionKey m
   · rw [addPhase2_nonaction s k m ha] at hx; exact hx
   · have hf := releaseActionMappings_frame s
     cases hb : shouldAbsorb s k
@@ -155,7 +155,7 @@ theorem addNewMapping_foreign_pass (s : State) (k0 : Key) (m : Mapping) (h : IIn
   -- phase 2
   have p2 : (k ∈ (addPhase2 (afterConsume s m) k0 m).1.pass ↔ k ∈ (afterConsume s m).pass) ∧
       k ∉ (addPhase2 (afterConsume s m) k0 m).1.mapped := by
-    cases hact : isActionMapping m
+    cases hact : producesActionKey m
     · rw [addPhase2_nonaction _ k0 m hact]; exact ⟨Iff.rfl, hm1⟩
     · have r1 := ram_pass (afterConsume s m) k hm1 c1
       have hr1 := (releaseActionMappings_spec c1)
